@@ -14,6 +14,7 @@ import RoModel.Drivers.Resub
 import RoModel.Drivers.Subject
 import RoModel.Drivers.SubjLin
 import RoModel.Drivers.Rate
+import RoModel.Drivers.Chan
 namespace Ro.Driver
 
 def handlers : List (String × (Case → String)) := [
@@ -28,7 +29,9 @@ def handlers : List (String × (Case → String)) := [
   ("resub", Drivers.Resub.run),
   ("subject", Drivers.Subject.run),
   ("subjlin", Drivers.SubjLin.run),
-  ("rate", Drivers.Rate.run)
+  ("rate", Drivers.Rate.run),
+  ("chan", Drivers.Chan.run),
+  ("chanv", Drivers.Chan.runV)
 ]
 
 def runCase (c : Case) : String :=
